@@ -179,7 +179,7 @@ pub fn run(tape: &[u8], cx: &Cx) -> Outcome {
     let subs = subjects.clone();
     let rp = repl.clone();
     let exp_first: Vec<Option<Vec<u32>>> = expected.iter().map(|e| e.as_ref().map(|x| x.0.clone())).collect();
-    let res = std::thread::spawn(move || {
+    let res = crate::runner::spawn_user_thread(move || {
         catch(move || {
             let terms = p2.build_wrapped();
             let e = *terms.last().unwrap();
